@@ -50,6 +50,9 @@ def glyph_bytes(g):
                 else:
                     flags |= 0x0040  # WE_HAVE_AN_X_AND_Y_SCALE
                     tail = struct.pack(">hh", comp[3], comp[4])
+            elif len(comp) == 7:    # (gid, dx, dy, xscale, scale01, scale10, yscale): WE_HAVE_A_TWO_BY_TWO
+                flags |= 0x0080
+                tail = struct.pack(">hhhh", *comp[3:7])
             out += (struct.pack(">HHbb", flags, gid, dx, dy) if small else struct.pack(">HHhh", flags, gid, dx, dy)) + tail
         return out
     contours = g.get("contours") or []
@@ -90,6 +93,11 @@ def glyph_bbox(g, glyphs):
                 xs = sorted((sc(b[0], comp[3]), sc(b[2], comp[3])))
                 ys = sorted((sc(b[1], comp[4]), sc(b[3], comp[4])))
                 b = (xs[0], ys[0], xs[1], ys[1])
+            if len(comp) == 7:
+                # x' = xscale*x + scale10*y, y' = scale01*x + yscale*y on the corners of the box (a superset of the outline's box)
+                xa, s01, s10, ya = comp[3:7]
+                cs = [(int((x * xa + y * s10) / 16384.0), int((x * s01 + y * ya) / 16384.0)) for x in (b[0], b[2]) for y in (b[1], b[3])]
+                b = (min(c[0] for c in cs), min(c[1] for c in cs), max(c[0] for c in cs), max(c[1] for c in cs))
             b = (b[0] + dx, b[1] + dy, b[2] + dx, b[3] + dy)
             bb = b if bb is None else (min(bb[0], b[0]), min(bb[1], b[1]), max(bb[2], b[2]), max(bb[3], b[3]))
         return bb
